@@ -30,7 +30,8 @@ CONSTANTS
   MaxBad,    \* bound on the number of tampered copies
   PubOn,     \* replicas that may publish their manifest (ToMultihash) ({} = never)
   WriteFaults,\* TRUE: the store may refuse the block write of an append
-  ForkOn     \* replicas that may be rebuilt from another replica's entries and heads (NewLog with options) ({} = never)
+  ForkOn,    \* replicas that may be rebuilt from another replica's entries and heads (NewLog with options) ({} = never)
+  LoadKinds  \* loaders by which a ForkOn replica may be rebuilt from the store: "entry","json","hash","mh" ({} = never)
 
 VARIABLES
   U,      \* sequence of entry records (index = creation order = model CID)
@@ -177,6 +178,35 @@ Fork(r, s) ==
   /\ UNCHANGED <<U, ident, bad>>
 
 (***************************************************************************)
+(* Load: replica r is replaced by a log read back from the block store     *)
+(* (log.go NewFromEntry / NewFromJSON / NewFromEntryHash /                 *)
+(* NewFromMultihash), starting from the heads of replica s - all of them,  *)
+(* or the single head h for "hash".  The loader follows next and refs, so  *)
+(* the result is the causal closure of its starting points; every block of *)
+(* U is in the store (a refused append leaves its block, a refused write   *)
+(* creates no entry).  What the code does with the clock: NewLog takes the *)
+(* maximum over LogOptions.Heads, which only NewFromMultihash passes - the *)
+(* other loaders pass entries only, heads are derived afterwards and the   *)
+(* clock of the new log starts at 0 (Append still takes the maximum with   *)
+(* the heads, so C04 is unaffected as long as it looks at ALL heads).      *)
+(***************************************************************************)
+LoadFrom(s, k, h) == IF k = "hash" THEN {h} ELSE SeqRange(heads[s])
+Load(r, s, k, h) ==
+  /\ CanOp /\ r \in ForkOn /\ k \in LoadKinds /\ Lid[r] = Lid[s] /\ ents[s] # {}
+  /\ bad[r] = {} /\ bad[s] = {}
+  /\ h \in SeqRange(heads[s]) /\ (k # "hash" => h = heads[s][1])
+  /\ LET from == LoadFrom(s, k, h)
+         got  == from \cup UNION {PastOf(U, x) : x \in from}
+         hs   == MaximalOf(U, got)
+     IN /\ ents'  = [ents EXCEPT ![r] = got]
+        /\ heads' = [heads EXCEPT ![r] = SortIds(U, Fn, SetAsSeq(hs), TRUE)]
+        /\ nidx'  = [nidx EXCEPT ![r] = NextsOf(U, got)]
+        /\ clk'   = [clk EXCEPT ![r] = IF k = "mh" THEN MaxTimeOf(U, heads[s], 0) ELSE 0]
+  /\ pure'  = [pure EXCEPT ![r] = pure[s]]
+  /\ hist'  = Append(hist, <<"L", r, s, k, h>>)
+  /\ UNCHANGED <<U, ident, bad>>
+
+(***************************************************************************)
 (* Publish (log_io.go toMultihash): writes the manifest block {id, heads}. *)
 (* It changes no replica; the store only grows (C17 looks at the writes of *)
 (* the real run).  An empty log cannot be published (error).               *)
@@ -230,6 +260,7 @@ Iterate(r, o) ==
 
 Next ==
   \/ \E r \in ForkOn, s \in R : Fork(r, s)
+  \/ \E r \in ForkOn, s \in R, k \in LoadKinds : \E h \in SeqRange(heads[s]) : Load(r, s, k, h)
   \/ \E r \in PubOn : Publish(r)
   \/ \E r \in Evil, k \in Kinds : \E x \in ents[r] : Tamper(r, x, k)
   \/ \E r \in IterOn : \E o \in IterOptions(r) : Iterate(r, o)
@@ -271,7 +302,8 @@ C02_NoDupHeads      == \A r \in R : Len(heads[r]) = Cardinality(HeadSet(r))
 \* supporting invariants of the transcription
 NidxExact == \A r \in R : pure[r] => nidx[r] = NextsOf(U, ents[r])
 Closed    == \A r \in R : pure[r] => ClosedIn(U, ents[r])
-ClockDominates == \A r \in R : pure[r] => \A x \in ents[r] : U[x].t <= clk[r]
+\* (what Append bases the next time on: the log clock or its heads - a loaded log starts with clock 0)
+ClockDominates == \A r \in R : pure[r] => \A x \in ents[r] : U[x].t <= MaxInt(clk[r], MaxTimeOf(U, heads[r], 0))
 ClockMonotoneAlongNext == \A x \in DOMAIN U : \A n \in SeqRange(U[x].next) : U[n].t < U[x].t
 
 \* C03
@@ -307,7 +339,7 @@ C01_NoOpJoins ==
           => ents'[r] = ents[r] /\ SeqRange(heads'[r]) = HeadSet(r)]_vars
 
 \* (a Fork replaces replica r by a new log instance)
-Forked(r) == hist' # hist /\ hist'[Len(hist')][1] = "F" /\ hist'[Len(hist')][2] = r
+Forked(r) == hist' # hist /\ hist'[Len(hist')][1] \in {"F", "L"} /\ hist'[Len(hist')][2] = r
 C05_EntriesMonotone ==
   [][\A r \in R : pure'[r] /\ ~Forked(r) => ents[r] \subseteq ents'[r]]_vars
 C05_ValuesSubsequence ==
